@@ -395,19 +395,23 @@ theorem newFactory_ok_iff (cat : Catalogue) (proxy : Bool) (d : Option DefaultRu
         rw [if_neg hne, pure_ok_iff]
         simp [Spec.factory, Spec.pipelines, ownDefault, inherit_nil]
 
-theorem ruleOk_iff (cat : Catalogue) (proxy : Bool) (d : Option DefaultRule) (r : RuleDef) :
-    Spec.ruleOk cat proxy d r = true ↔ WellFormed cat proxy d r := by
+theorem ruleOk_iff (cat : Catalogue) (proxy validated : Bool) (d : Option DefaultRule) (r : RuleDef) :
+    Spec.ruleOk cat proxy validated d r = true ↔ WellFormed cat proxy validated d r := by
   unfold Spec.ruleOk
   simp only [Bool.and_eq_true, listsOk_iff, Bool.not_eq_true', List.isEmpty_eq_false_iff, Bool.or_eq_true]
   constructor
   · rintro ⟨⟨⟨hl, hne⟩, hf⟩, ha⟩
-    refine ⟨hl, hne, ?_, ha⟩
-    intro hp; rcases hf with h | h
-    · simp [hp] at h
-    · exact h
+    refine ⟨hl, ?_, ?_, ha⟩
+    · intro hv; rcases hne with h | h
+      · simp [hv] at h
+      · exact h
+    · intro hp; rcases hf with h | h
+      · simp [hp] at h
+      · exact h
   · rintro ⟨hl, hne, hf, ha⟩
-    refine ⟨⟨⟨hl, hne⟩, ?_⟩, ha⟩
-    cases proxy <;> simp_all
+    refine ⟨⟨⟨hl, ?_⟩, ?_⟩, ha⟩
+    · cases validated <;> simp_all
+    · cases proxy <;> simp_all
 
 theorem configOk_iff (cat : Catalogue) (d : Option DefaultRule) :
     Spec.configOk cat d = true ↔ ConfigWellFormed cat d := by
@@ -421,8 +425,10 @@ theorem configOk_iff (cat : Catalogue) (d : Option DefaultRule) :
     · rintro ⟨hl, ⟨h1, h2⟩, ha⟩; exact ⟨⟨⟨hl, h1⟩, h2⟩, ha⟩
 
 /-- `CreateRule` behind the rule set validation, on the factory of a configuration -/
-theorem loadRule_ok_iff (cat : Catalogue) (proxy : Bool) (d : Option DefaultRule) (r : RuleDef) (e : Effective) :
-    loadRule cat (Spec.factory proxy d) r = .ok e ↔ WellFormed cat proxy d r ∧ e = Spec.effective d r := by
+theorem loadRule_ok_iff (cat : Catalogue) (proxy validated : Bool) (d : Option DefaultRule) (r : RuleDef)
+    (e : Effective) :
+    loadRule cat validated (Spec.factory proxy d) r = .ok e ↔
+      WellFormed cat proxy validated d r ∧ e = Spec.effective d r := by
   unfold loadRule createRule
   have hps : ∀ (p : Pipes) (eh : List Mech),
       p = ⟨own .authentication r.execute r.onError, own .handling r.execute r.onError,
@@ -438,9 +444,10 @@ theorem loadRule_ok_iff (cat : Catalogue) (proxy : Bool) (d : Option DefaultRule
     cases r.backtracking <;> simp [Factory.backtrackingFor]
   split
   · rename_i hempty
+    simp only [Bool.and_eq_true] at hempty
     constructor
     · intro h; cases h
-    · rintro ⟨hw, _⟩; exact absurd (List.isEmpty_iff.mp hempty) hw.nonempty
+    · rintro ⟨hw, _⟩; exact absurd (List.isEmpty_iff.mp hempty.2) (hw.nonempty hempty.1)
   · rename_i hne
     split
     · rename_i hfwd
@@ -461,7 +468,7 @@ theorem loadRule_ok_iff (cat : Catalogue) (proxy : Bool) (d : Option DefaultRule
         · rename_i hauth
           rw [pure_ok_iff] at h
           refine ⟨⟨hl, ?_, ?_, ?_⟩, ?_⟩
-          · intro h0; simp [h0] at hne
+          · intro hv h0; simp [hv, h0] at hne
           · intro hp'
             simp only [Spec.factory, Bool.and_eq_true, Bool.not_eq_true', not_and, Bool.not_eq_false] at hfwd
             exact hfwd hp'
@@ -476,5 +483,12 @@ theorem loadRule_ok_iff (cat : Catalogue) (proxy : Bool) (d : Option DefaultRule
           simpa [Spec.pipelines] using hne'
         simp only [this, Bool.false_eq_true, if_false, pure_ok_iff]
         rfl
+
+/-- a history is judged rule by rule: what the factory created before plays no role -/
+theorem loadAll_eq_map (cat : Catalogue) (validated : Bool) (rs : List RuleDef) : ∀ f : Factory,
+    loadAll cat validated f rs = rs.map (loadRule cat validated f) := by
+  induction rs with
+  | nil => intro f; rfl
+  | cons r rs ih => intro f; simp [loadAll, Factory.createRuleM, ih]
 
 end Heimdall.Factory
